@@ -5,6 +5,8 @@
  *   probe                  compile /c02/probe.c, print `probe <hash> ...` (structural dump hash), free the program
  *   src <hex>              append bytes to the main source  (-> /c02/t/x.c);  newsrc  empties it again
  *   file <name> <hex>      append bytes to /c02/t/<name>
+ *   aprobe-arm             fork the pristine helper of the adaptive probe (before any fuzzed compile)
+ *   aprobe                 adaptive probe: mention every declared identifier, compare with the pristine helper
  *   pretext                compile the collected source as pre_text (no file), print the outcome like `compile`
  *   compile                write the files, compile /c02/t/x.c, print the outcome:
  *                            result prog | result errors <n> | result thrown | result none | result inherit
@@ -14,6 +16,7 @@
 #include <unistd.h>
 #include <fcntl.h>
 #include <sys/stat.h>
+#include <sys/wait.h>
 #include "lpc/compiler.h"
 #include "lpc/identifier.h"
 #include "lpc/program.h"
@@ -27,31 +30,111 @@ static size_t src_len;
 static struct { char name[600]; char *buf; size_t len; } files[64];
 static int nfiles;
 
-/* ---- permanent identifiers touched by local-variable bookkeeping ------- */
-static struct { ident_hash_elem_t *ihe; int base; } perm[512];
+/* ---- permanent identifiers (efun / simul_efun / reserved names) touched by a compile ------------------ */
+static struct { ident_hash_elem_t *ihe; int sem, fn, glob, cls; } perm[512];
 static int nperm;
 
-static int nonlocal_refs (ident_hash_elem_t * ihe)
+/* names the compiled sources declared (locals, functions, globals, classes): input of the adaptive probe */
+#define MAXNAMES 24
+static char names[MAXNAMES][48];
+static int nnames;
+static int collect_names;	/* only while a fuzzed source is compiled */
+
+static void note_name (const char *n, int isperm)
 {
-  return (ihe->dn.function_num != -1) + (ihe->dn.global_num != -1) + (ihe->dn.class_num != -1);
+  size_t len = strlen (n);
+  if (!collect_names || !len || len >= sizeof names[0])
+    return;
+  for (const char *q = n; *q; q++)
+    if (!(isalnum ((unsigned char) *q) || *q == '_'))
+      return;
+  for (int i = 0; i < nnames; i++)
+    if (!strcmp (names[i], n))
+      return;
+  if (nnames < MAXNAMES)
+    strcpy (names[nnames++], n);
+  else if (isperm)
+    {
+      /* permanent names are the interesting ones: replace a non-permanent one */
+      for (int i = 0; i < nnames; i++)
+        {
+          ident_hash_elem_t *e = lookup_ident (names[i]);
+          if (!e || !(e->token & IHE_PERMANENT))
+            {
+              strcpy (names[i], n);
+              return;
+            }
+        }
+    }
 }
 
-static long before_local = 0, before_sem = 0;
+static int perm_index (ident_hash_elem_t * ihe)
+{
+  for (int i = 0; i < nperm; i++)
+    if (perm[i].ihe == ihe)
+      return i;
+  return -1;
+}
+
+/* first sight of a permanent identifier (always BEFORE the compiler modifies it): remember all its fields */
+static void perm_first_sight (ident_hash_elem_t * ihe, long sem_now)
+{
+  if (!ihe || !(ihe->token & IHE_PERMANENT) || perm_index (ihe) >= 0 || nperm >= 512)
+    return;
+  perm[nperm].ihe = ihe;
+  perm[nperm].sem = (int) sem_now;
+  perm[nperm].fn = ihe->dn.function_num;
+  perm[nperm].glob = ihe->dn.global_num;
+  perm[nperm].cls = ihe->dn.class_num;
+  if (ihe->dn.function_num != -1 || ihe->dn.global_num != -1 || ihe->dn.class_num != -1 || ihe->dn.local_num != -1)
+    vh_out ("ident.base-odd %s fn=%d glob=%d cls=%d local=%d", ihe->name, ihe->dn.function_num, ihe->dn.global_num,
+            ihe->dn.class_num, ihe->dn.local_num);
+  nperm++;
+}
+
+static long before_local = 0, before_sem = 0, pre_field = 0, pre_sem = 0;
 static long nev = 0;
 #define MAXEV 60000
 
 static void c02_trace (const char *ev, long cursor, long size)
 {
+  ident_hash_elem_t *subj = (ident_hash_elem_t *) verif_compiler_trace_subject;
   if (++nev > MAXEV)
     {
       if (nev == MAXEV + 1)
         vh_out ("ev-truncated");
       /* keep the end-of-compile events so that the replay stays meaningful */
-      if (strncmp (ev, "lex.", 4) && strcmp (ev, "local.cleanup"))
+      if (strncmp (ev, "lex.", 4) && strcmp (ev, "local.cleanup") && strncmp (ev, "ident.", 6))
         return;
+    }
+  if (!strcmp (ev, "ident.pre"))
+    {
+      perm_first_sight (subj, size);
+      pre_field = cursor;
+      pre_sem = size;
+      return;
+    }
+  if (!strncmp (ev, "ident.bind.", 11))
+    {
+      int isperm = subj && (subj->token & IHE_PERMANENT) ? 1 : 0;
+      if (subj)
+        note_name (subj->name, isperm);
+      /* binding after, sem after, name, permanent?, binding before, sem before */
+      vh_out ("ev %s %ld %ld %s %d %ld %ld", ev, cursor, size, subj && subj->name[0] ? subj->name : "-", isperm, pre_field, pre_sem);
+      return;
+    }
+  if (!strcmp (ev, "ident.clean"))
+    {
+      int i = perm_index (subj);
+      /* sem_value relative to the value at first sight */
+      vh_out ("ev ident.clean %ld 0 %s", i >= 0 ? cursor - perm[i].sem : 9999L, subj ? subj->name : "-");
+      return;
     }
   if (!strcmp (ev, "local.ident0"))
     {
+      long idx = (locals_ptr - locals) + current_number_of_locals - 1;
+      if (idx >= 0 && (size_t) idx < locals_size)
+        perm_first_sight (locals_ptr[current_number_of_locals - 1], size);
       before_local = cursor;
       before_sem = size;
       return;
@@ -63,20 +146,8 @@ static void c02_trace (const char *ev, long cursor, long size)
       if (idx >= 0 && (size_t) idx < locals_size)
         ihe = locals_ptr[current_number_of_locals - 1];
       int isperm = ihe && (ihe->token & IHE_PERMANENT) ? 1 : 0;
-      if (isperm)
-        {
-          int i;
-          for (i = 0; i < nperm; i++)
-            if (perm[i].ihe == ihe)
-              break;
-          if (i == nperm && nperm < 512)
-            {
-              perm[nperm].ihe = ihe;
-              /* value before this add, without the per-compile function/global/class bindings */
-              perm[nperm].base = (int) before_sem - nonlocal_refs (ihe);
-              nperm++;
-            }
-        }
+      if (ihe)
+        note_name (ihe->name, isperm);
       /* local_num before, sem before -> local_num assigned, sem after */
       vh_out ("ev local.ident %ld %ld %s %d %ld %ld", cursor, size, ihe && ihe->name[0] ? ihe->name : "-", isperm,
               before_local, before_sem);
@@ -86,9 +157,9 @@ static void c02_trace (const char *ev, long cursor, long size)
   if (!strcmp (ev, "lex.end.if"))
     {
       for (int i = 0; i < nperm; i++)
-        vh_out ("ident.end %s delta=%d local=%d", perm[i].ihe->name,
-                (int) perm[i].ihe->sem_value - nonlocal_refs (perm[i].ihe) - perm[i].base,
-                (int) perm[i].ihe->dn.local_num);
+        vh_out ("ident.end %s delta=%d fn=%d glob=%d cls=%d local=%d", perm[i].ihe->name,
+                (int) perm[i].ihe->sem_value - perm[i].sem, (int) perm[i].ihe->dn.function_num,
+                (int) perm[i].ihe->dn.global_num, (int) perm[i].ihe->dn.class_num, (int) perm[i].ihe->dn.local_num);
       vh_out ("locals.end cur=%d max=%d name=%ld type=%ld", current_number_of_locals, max_num_locals,
               (long) (locals_ptr - locals), (long) (type_of_locals_ptr - type_of_locals));
     }
@@ -156,7 +227,7 @@ static int cmp_fn (const void *a, const void *b)
 
 /* structural dump of a program reduced to a hash; pointer-order artefacts (function table is sorted by the address
  * of the shared name string) are removed by sorting by name */
-static void dump_prog (const char *tag, program_t * prog)
+static void dump_str (program_t * prog, char *out, size_t nout)
 {
   unsigned long long h = 1469598103934665603ULL;
   char tmp[256];
@@ -189,10 +260,17 @@ static void dump_prog (const char *tag, program_t * prog)
                 (int) prog->classes[i].index);
       h = fnv_str (h, tmp);
     }
-  vh_out ("%s %016llx size=%d fn=%d/%d str=%d var=%d/%d cls=%d inh=%d", tag, h, (int) prog->program_size,
+  snprintf (out, nout, "%016llx size=%d fn=%d/%d str=%d var=%d/%d cls=%d inh=%d", h, (int) prog->program_size,
           (int) prog->num_functions_defined, (int) prog->num_functions_total, (int) prog->num_strings,
           (int) prog->num_variables_defined, (int) prog->num_variables_total, (int) prog->num_classes,
           (int) prog->num_inherited);
+}
+
+static void dump_prog (const char *tag, program_t * prog)
+{
+  char buf[256];
+  dump_str (prog, buf, sizeof buf);
+  vh_out ("%s %s", tag, buf);
 }
 
 /* compile one file of the mudlib like load_object() does; returns the program or 0 */
@@ -229,8 +307,139 @@ static program_t *compile_path (const char *path, int *thrown)
   return compile_path_pre (path, thrown, 0);
 }
 
+/* ---- adaptive reusability probe -------------------------------------------------------------------------
+ * A helper process is forked BEFORE the fuzzed input is compiled (`aprobe-arm`); it never sees that input.
+ * After the fuzzed compile (`aprobe`) both processes compile the same tiny programs, each mentioning one identifier
+ * the fuzzed input declared (as rvalue, lvalue, functional, call, class name); every outcome must be the same. */
+static int ap_go[2] = { -1, -1 }, ap_res[2] = { -1, -1 };
+static pid_t ap_helper = -1;
+static const char *ap_kinds[] = { "r", "l", "f", "c", "t" };
+#define AP_NKINDS 5
+
+static void ap_text (char *buf, size_t n, const char *name, int kind)
+{
+  switch (kind)
+    {
+    case 0: snprintf (buf, n, "mixed ap() { return %s; }\n", name); break;
+    case 1: snprintf (buf, n, "void ap() { %s = 1; }\n", name); break;
+    case 2: snprintf (buf, n, "mixed ap() { return (: %s :); }\n", name); break;
+    case 3: snprintf (buf, n, "mixed ap() { return %s(); }\n", name); break;
+    default: snprintf (buf, n, "mixed ap() { class %s x; return 0; }\n", name); break;
+    }
+}
+
+static void ap_outcome (const char *name, int kind, char *out, size_t nout)
+{
+  char text[256];
+  int thrown;
+  program_t *prog;
+  ap_text (text, sizeof text, name, kind);
+  prog = compile_path_pre ("c02/t/ap_nofile.c", &thrown, text);
+  if (prog)
+    {
+      char d[200];
+      dump_str (prog, d, sizeof d);
+      snprintf (out, nout, "prog %s", d);
+      free_prog (prog, 1);
+    }
+  else if (inherit_file)
+    {
+      FREE (inherit_file);
+      inherit_file = 0;
+      snprintf (out, nout, "inherit");
+    }
+  else if (thrown)
+    snprintf (out, nout, "thrown");
+  else
+    snprintf (out, nout, "errors %d", num_parse_error);
+}
+
+static void ap_arm (void)
+{
+  if (ap_helper > 0 || pipe (ap_go) || pipe (ap_res))
+    return;
+  fflush (stderr);
+  ap_helper = fork ();
+  if (ap_helper == 0)
+    {
+      char line[64], out[300];
+      FILE *in, *res;
+      int fd = open ("/dev/null", O_WRONLY);
+      dup2 (fd, 2);
+      close (ap_go[1]);
+      close (ap_res[0]);
+      verif_compiler_trace = 0;
+      alarm (60);
+      in = fdopen (ap_go[0], "r");
+      res = fdopen (ap_res[1], "w");
+      while (in && res && fgets (line, sizeof line, in))
+        {
+          line[strcspn (line, "\n")] = 0;
+          if (!line[0])
+            continue;
+          for (int k = 0; k < AP_NKINDS; k++)
+            {
+              ap_outcome (line, k, out, sizeof out);
+              fprintf (res, "%s\n", out);
+            }
+          fflush (res);
+        }
+      _exit (0);
+    }
+  close (ap_go[0]);
+  close (ap_res[1]);
+}
+
+static void ap_run (void)
+{
+  char mine[MAXNAMES * AP_NKINDS][300];
+  char line[300];
+  int differ = 0, n = 0;
+  FILE *res;
+  if (ap_helper <= 0)
+    {
+      vh_out ("aprobe unarmed");
+      return;
+    }
+  verif_compiler_trace = 0;
+  for (int i = 0; i < nnames; i++)
+    {
+      dprintf (ap_go[1], "%s\n", names[i]);
+      for (int k = 0; k < AP_NKINDS; k++)
+        ap_outcome (names[i], k, mine[n++], sizeof mine[0]);
+    }
+  close (ap_go[1]);
+  res = fdopen (ap_res[0], "r");
+  for (int j = 0; j < n; j++)
+    {
+      if (!res || !fgets (line, sizeof line, res))
+        snprintf (line, sizeof line, "helper-missing");
+      line[strcspn (line, "\n")] = 0;
+      if (strcmp (line, mine[j]))
+        {
+          differ++;
+          vh_out ("aprobe-differs %s %s fresh=[%s] after=[%s]", names[j / AP_NKINDS], ap_kinds[j % AP_NKINDS], line, mine[j]);
+        }
+    }
+  vh_out ("aprobe names=%d probes=%d differ=%d", nnames, n, differ);
+  {
+    int st;
+    waitpid (ap_helper, &st, 0);
+  }
+}
+
 static int c02_cmd (char *line)
 {
+  if (!strcmp (line, "aprobe-arm"))
+    {
+      ap_arm ();
+      return 1;
+    }
+  if (!strcmp (line, "aprobe"))
+    {
+      ap_run ();
+      return 1;
+    }
   if (!strcmp (line, "pretext"))
     {
       /* compile the collected source as pre_text of a file that does not exist (what load_object(name, pre_text)
@@ -243,7 +452,9 @@ static int c02_cmd (char *line)
       nev = 0;
       verif_compiler_trace = c02_trace;
       vh_out ("cfg maxlocals %ld", (long) num_local_variables_allowed);
+      collect_names = 1;
       prog = compile_path_pre ("c02/t/nofile.c", &thrown, src_buf);
+      collect_names = 0;
       if (prog)
         {
           vh_out ("result prog");
@@ -346,7 +557,9 @@ static int c02_cmd (char *line)
       verif_compiler_trace = c02_trace;
       vh_out ("cfg maxlocals %ld", (long) num_local_variables_allowed);
     again:
+      collect_names = 1;
       prog = compile_path ("c02/t/x.c", &thrown);
+      collect_names = 0;
       if (prog)
         {
           vh_out ("result prog");
